@@ -268,7 +268,13 @@ func (x *cliExec) api(in CliInput) {
 			var progcb client.ProgressHandler
 			if in.Prog {
 				g := gNum(in.G)
-				progcb = func(r *wamp.Result) { x.cb("prog", g, intArg(r.Arguments)) }
+				slow := time.Duration(in.Tmo) * time.Millisecond
+				progcb = func(r *wamp.Result) {
+					x.cb("prog", g, intArg(r.Arguments))
+					if slow > 0 {
+						time.Sleep(slow) // a progress handler that takes its time
+					}
+				}
 			}
 			res, err := x.c.Call(ctx, in.Name, nil, wamp.List{1}, nil, progcb)
 			out := classify(err)
